@@ -8,15 +8,21 @@
 //! goes into `record_vote` → `Prepared` ⇒ `commit`, and only if `commit`
 //! returned `Ok` a `TxCommit` to every shard → `Aborting` or listed by
 //! `cleanup_timeouts` ⇒ the real `process_pending_aborts(&SimTransport)`.
-//! Everything runs on the one kernel thread; the case's step list decides
-//! which in-flight message is delivered, dropped, duplicated or delayed, when
-//! the coordinator's timeout sweep fires and when the clock passes the
-//! participants' lock timeout.
+//! The case's step list decides which in-flight message is delivered, dropped,
+//! duplicated or delayed, when the coordinator's timeout sweep fires and when
+//! the clock passes the participants' lock timeout. Participants and message
+//! handling run on the one kernel thread; a `Concurrent` step runs 1-3 baton
+//! threads (`sched::run_threads`, switches at `tensor_chain`'s lock
+//! acquisitions) that issue coordinator calls (`record_vote`, `commit`,
+//! `abort`, `cleanup_timeouts`, `process_pending_aborts`) side by side, as
+//! `cluster.rs` does from `spawn_blocking` workers and its tick loop; the
+//! recorded outcomes are judged by the same oracle afterwards.
 
 use crate::ctx::RunCtx;
 use crate::driver::{drop_chunks, RunOut, Scenario, Tier, Violation};
 use crate::net::{new_net, now_or_never, InFlight, Net, SimTransport};
 use crate::rng::Rng;
+use crate::sched;
 use crate::storeutil::{canon_data, dump_store, hex};
 use serde::{Deserialize, Serialize};
 use serde_json::{json, Value};
@@ -26,7 +32,7 @@ use std::time::Duration;
 use tensor_chain::block::Transaction;
 use tensor_chain::consensus::ConsensusManager;
 use tensor_chain::distributed_tx::{DistributedTxConfig, DistributedTxCoordinator, TxParticipant, TxPhase, VoteRecordError};
-use tensor_chain::network::{Message, MessageHandler, Transport, TxCommitMsg, TxHandler, TxPrepareMsg, TxVote};
+use tensor_chain::network::{Message, MessageHandler, Transport, TxAbortMsg, TxCommitMsg, TxHandler, TxPrepareMsg, TxVote};
 use tensor_store::{ScalarValue, SparseVector, TensorData, TensorStore, TensorValue};
 
 const COORD: &str = "coord";
@@ -68,6 +74,23 @@ pub struct TxSpec {
     pub parts: Vec<PartSpec>,
 }
 
+/// One coordinator call made by a thread of a `Concurrent` step.
+#[derive(Serialize, Deserialize, Clone, Debug, PartialEq)]
+pub enum Call {
+    /// hand the pick-th in-flight `TxPrepareResponse` addressed to the coordinator
+    /// to `record_vote`; on `Prepared` (and unless `defer_commit`) the same thread
+    /// calls `commit` next, as the driver stub does
+    Vote { pick: u16 },
+    Commit { tx: u8 },
+    /// `abort(tx, "client abort")`: the driver cancels the transaction; only if it
+    /// returned `Ok` the stub sends `TxAbort` to every participant
+    Abort { tx: u8 },
+    /// `cleanup_timeouts`
+    Sweep,
+    /// `process_pending_aborts`
+    Pump,
+}
+
 #[derive(Serialize, Deserialize, Clone, Debug, PartialEq)]
 pub enum Step {
     /// begin transaction `tx` (index into `Case::txs`) and send its prepares
@@ -93,6 +116,17 @@ pub enum Step {
     StaleSweep { shard: u8, secs: u16 },
     /// OBSERVATION ONLY (outside the quantifier): CLOCK_REALTIME steps backwards
     WallBack { ms: u32 },
+    /// advance the clock by `advance_ms`, then run `threads` (1-3 lists of
+    /// coordinator calls) as baton threads under `schedule`; afterwards the
+    /// kernel thread judges the outcomes in completion order, sends what the
+    /// stub sends (TxCommit after commit Ok, TxAbort after abort Ok) and pumps
+    /// the pending aborts
+    Concurrent { advance_ms: u32, threads: Vec<Vec<Call>>, schedule: Vec<u8> },
+    /// OBSERVATION ONLY (outside the quantifier, C13's subject): graceful
+    /// coordinator restart through its store persistence: `save_to_store`, drop,
+    /// `load_from_store`, `recover`, then the pending decisions it reports are
+    /// executed (`complete_commit` / `complete_abort` + broadcast)
+    Restart,
 }
 
 #[derive(Serialize, Deserialize, Clone, Debug)]
@@ -135,7 +169,37 @@ struct TxRt {
     commit_delivered: BTreeSet<usize>,
     abort_delivered: BTreeSet<usize>,
     applied: BTreeSet<usize>,
+    /// shards a `TxAbort` of this transaction was ever addressed to (sent by the
+    /// coordinator's `process_pending_aborts` or by the stub after `abort` Ok)
+    abort_sent: BTreeSet<usize>,
+    /// shards that had produced a Yes vote when the coordinator decided
+    yes_before_decision: BTreeSet<usize>,
+    /// shards whose Yes vote `record_vote` accepted
+    yes_recorded: BTreeSet<usize>,
+    /// shards from which some vote was handed to `record_vote`
+    vote_handed: BTreeSet<usize>,
 }
+
+/// a `Call` resolved against the world before the threads start
+#[derive(Clone)]
+enum RCall {
+    Vote { t: usize, raw: u64, shard: usize, vote: TxVote, desc: String },
+    Commit { t: usize, raw: u64 },
+    Abort { t: usize, raw: u64 },
+    Sweep,
+    Pump,
+}
+
+/// what a thread of a `Concurrent` step saw, pushed when the call returned
+enum Outcome {
+    Vote { t: usize, shard: usize, yes: bool, res: Result<Option<TxPhase>, VoteRecordError> },
+    Commit { t: usize, res: Result<(), String>, why: &'static str },
+    Abort { t: usize, res: Result<(), String> },
+    Sweep { listed: Vec<u64> },
+    Pump,
+}
+
+const RESTART_LABEL: &str = "coordinator restart through save_to_store/load_from_store/recover";
 
 struct Shard {
     name: String,
@@ -217,7 +281,9 @@ struct World<'a> {
     ctx: &'a Arc<RunCtx>,
     case: &'a Case,
     net: Net,
-    coord: DistributedTxCoordinator,
+    coord: Arc<DistributedTxCoordinator>,
+    /// the store the coordinator persists itself into (Restart steps only)
+    coord_store: Option<TensorStore>,
     coord_tr: Arc<SimTransport>,
     shards: Vec<Shard>,
     txs: Vec<TxRt>,
@@ -239,7 +305,7 @@ impl<'a> World<'a> {
             names.push(format!("shard-{s}"));
         }
         let net = new_net();
-        let coord = DistributedTxCoordinator::new(ConsensusManager::default_config(), DistributedTxConfig::default());
+        let coord = Arc::new(DistributedTxCoordinator::new(ConsensusManager::default_config(), DistributedTxConfig::default()));
         let coord_tr = SimTransport::new(COORD, &names, &net);
         let mut shards = Vec::new();
         for s in 0..n {
@@ -267,6 +333,7 @@ impl<'a> World<'a> {
             case,
             net,
             coord,
+            coord_store: None,
             coord_tr,
             shards,
             txs,
@@ -423,6 +490,7 @@ impl<'a> World<'a> {
             None => {
                 self.txs[t].decision = Some(d);
                 self.txs[t].decided_by = by;
+                self.txs[t].yes_before_decision = self.txs[t].produced.iter().filter(|(_, v)| v.iter().any(|y| *y)).map(|(s, _)| *s).collect();
                 self.ctx.event(&format!("DECISION T{t} {d:?} by {by}"));
                 self.ctx.fp(&format!("dec:{d:?}:{by}"));
                 match d {
@@ -450,10 +518,18 @@ impl<'a> World<'a> {
             return;
         }
         let raw = self.txs[t].raw;
+        let res = self.coord.commit(raw).map_err(|e| e.to_string());
+        self.commit_result(t, res, why, "commit");
+    }
+
+    /// `commit` (by = "commit") or, after a restart, `complete_commit` (by =
+    /// "recovery") returned `res`: an `Ok` is the coordinator's COMMIT decision.
+    fn commit_result(&mut self, t: usize, res: Result<(), String>, why: &'static str, by: &'static str) {
+        let raw = self.txs[t].raw;
         self.txs[t].commit_pending = false;
-        match self.coord.commit(raw) {
+        match res {
             Ok(()) => {
-                self.ctx.event(&format!("commit(T{t}) [{why}] -> Ok"));
+                self.ctx.event(&format!("{by}(T{t}) [{why}] -> Ok"));
                 // item 2 — "it decides commit only if every participant voted yes":
                 // the votes are the ones the participants' handlers produced.
                 let parts: Vec<usize> = self.txs[t].ops.keys().copied().collect();
@@ -463,7 +539,7 @@ impl<'a> World<'a> {
                         self.violate(
                             "commit-without-yes-vote",
                             format!(
-                                "T{t}: commit() returned Ok although shard-{s} never voted Yes (votes it produced: {:?})",
+                                "T{t}: {by}() returned Ok although shard-{s} never voted Yes (votes it produced: {:?})",
                                 self.txs[t].produced.get(s)
                             ),
                         );
@@ -471,19 +547,19 @@ impl<'a> World<'a> {
                     if self.txs[t].nonyes_delivered.contains(s) {
                         self.violate(
                             "commit-despite-no-vote",
-                            format!("T{t}: commit() returned Ok although record_vote had accepted a No/Conflict vote of shard-{s}"),
+                            format!("T{t}: {by}() returned Ok although record_vote had accepted a No/Conflict vote of shard-{s}"),
                         );
                     }
                 }
-                self.decide(t, Dec::Commit, "commit");
+                self.decide(t, Dec::Commit, by);
                 let tr = self.coord_tr.clone();
                 for s in parts {
                     self.send_from(&tr, &format!("shard-{s}"), Message::TxCommit(TxCommitMsg { tx_id: raw, shards: vec![s] }));
                 }
             },
             Err(e) => {
-                let e = e.to_string().replace(&raw.to_string(), &format!("T{t}"));
-                self.ctx.event(&format!("commit(T{t}) [{why}] -> Err({e})"));
+                let e = e.replace(&raw.to_string(), &format!("T{t}"));
+                self.ctx.event(&format!("{by}(T{t}) [{why}] -> Err({e})"));
                 if why == "step" {
                     self.ctx.probe("commit_call_refused");
                 }
@@ -491,28 +567,82 @@ impl<'a> World<'a> {
         }
     }
 
-    /// `process_pending_aborts` through the coordinator's SimTransport; the
-    /// messages it queued are put into a canonical order (the order of one
-    /// batch depends on `HashMap` iteration inside the coordinator).
+    /// `abort(tx, ..)` called by the driver (by = "abort-call") or, after a
+    /// restart, `complete_abort` (by = "recovery") returned `res`: an `Ok` is the
+    /// coordinator's ABORT decision, which the stub then sends to every participant.
+    fn abort_result(&mut self, t: usize, res: Result<(), String>, by: &'static str) {
+        let raw = self.txs[t].raw;
+        match res {
+            Ok(()) => {
+                self.ctx.event(&format!("{by}: abort(T{t}) -> Ok"));
+                if by == "abort-call" {
+                    self.ctx.probe("abort_call_accepted");
+                    if self.txs[t].commit_pending {
+                        self.ctx.probe("abort_call_between_prepared_and_commit");
+                    }
+                }
+                self.decide(t, Dec::Abort, by);
+                let parts: Vec<usize> = self.txs[t].ops.keys().copied().collect();
+                let tr = self.coord_tr.clone();
+                for s in parts {
+                    self.send_from(&tr, &format!("shard-{s}"), Message::TxAbort(TxAbortMsg { tx_id: raw, reason: by.to_string(), shards: vec![s] }));
+                    self.txs[t].abort_sent.insert(s);
+                }
+            },
+            Err(e) => {
+                let e = e.replace(&raw.to_string(), &format!("T{t}"));
+                self.ctx.event(&format!("{by}: abort(T{t}) -> Err({e})"));
+                if by == "abort-call" {
+                    self.ctx.probe("abort_call_refused");
+                }
+            },
+        }
+    }
+
+    /// `process_pending_aborts` through the coordinator's SimTransport.
     fn pump_aborts(&mut self) {
         let mark = self.inflight_len();
         now_or_never(self.coord.process_pending_aborts(&*self.coord_tr));
-        let mut g = self.net.lock().unwrap();
-        if g.inflight.len() > mark {
-            let ids: Vec<u64> = g.inflight[mark..].iter().map(|m| m.id).collect();
-            let by_raw = &self.by_raw;
-            g.inflight[mark..].sort_by_key(|m| {
-                let raw = if let Message::TxAbort(a) = &m.msg { a.tx_id } else { 0 };
-                (by_raw.get(&raw).copied().unwrap_or(usize::MAX), m.to.clone())
-            });
-            for (m, id) in g.inflight[mark..].iter_mut().zip(ids) {
-                m.id = id;
+        self.canon_new_aborts(mark);
+    }
+
+    /// The messages queued since `mark` (all sent by `process_pending_aborts`)
+    /// are put into a canonical order (the order of one batch depends on
+    /// `HashMap` iteration inside the coordinator) and noted as "addressed to".
+    fn canon_new_aborts(&mut self, mark: usize) {
+        let mut sent: Vec<(u64, String)> = Vec::new();
+        {
+            let mut g = self.net.lock().unwrap();
+            if g.inflight.len() > mark {
+                let ids: Vec<u64> = g.inflight[mark..].iter().map(|m| m.id).collect();
+                let by_raw = &self.by_raw;
+                g.inflight[mark..].sort_by_key(|m| {
+                    let raw = if let Message::TxAbort(a) = &m.msg { a.tx_id } else { 0 };
+                    (by_raw.get(&raw).copied().unwrap_or(usize::MAX), m.to.clone())
+                });
+                for (m, id) in g.inflight[mark..].iter_mut().zip(ids) {
+                    m.id = id;
+                    if let Message::TxAbort(a) = &m.msg {
+                        sent.push((a.tx_id, m.to.clone()));
+                    }
+                }
+            }
+        }
+        for (raw, to) in sent {
+            if let (Some(&t), Some(s)) = (self.by_raw.get(&raw), Self::shard_of(&to)) {
+                self.txs[t].abort_sent.insert(s);
             }
         }
     }
 
     fn sweep(&mut self) {
         let listed = self.coord.cleanup_timeouts();
+        self.swept(&listed);
+        self.pump_aborts();
+    }
+
+    /// `cleanup_timeouts` returned `listed`: each listed transaction is decided ABORT.
+    fn swept(&mut self, listed: &[u64]) {
         let mut ts: Vec<usize> = listed.iter().filter_map(|r| self.by_raw.get(r).copied()).collect();
         ts.sort_unstable();
         if ts.len() != listed.len() {
@@ -524,9 +654,73 @@ impl<'a> World<'a> {
             if self.txs[t].commit_pending {
                 self.ctx.probe("timeout_between_prepared_and_commit");
             }
+            // harness-side facts about the situation the timeout fell into
+            let parts: Vec<usize> = self.txs[t].ops.keys().copied().collect();
+            if parts.iter().any(|s| self.txs[t].produced.get(s).map_or(true, Vec::is_empty)) {
+                self.ctx.probe("timeout_before_participant_prepared");
+            }
+            if parts.iter().any(|s| self.txs[t].produced.get(s).is_some_and(|v| v.iter().any(|y| *y)) && !self.txs[t].yes_recorded.contains(s)) {
+                self.ctx.probe("timeout_with_unrecorded_yes_vote");
+            }
             self.decide(t, Dec::Abort, "timeout");
         }
-        self.pump_aborts();
+    }
+
+    /// `record_vote` returned `res` for the vote of `shard`; returns the phase the
+    /// coordinator reported, if any (the caller makes the follow-up call).
+    fn vote_result(&mut self, t: usize, shard: usize, yes: bool, res: Result<Option<TxPhase>, VoteRecordError>) -> Option<TxPhase> {
+        // harness-side facts (independent of what the coordinator answered)
+        if !self.txs[t].vote_handed.insert(shard) {
+            self.ctx.probe("duplicate_vote");
+        }
+        if self.txs[t].decided_by == "timeout" {
+            self.ctx.probe("vote_after_timeout");
+        } else if self.txs[t].decision == Some(Dec::Commit) {
+            self.ctx.probe("vote_after_commit");
+        }
+        // a No/Conflict vote counts against a later COMMIT only if the
+        // coordinator accepted it; a participant that voted Yes and answers a
+        // duplicate prepare with Conflict after its lock expired has its late
+        // vote refused (DuplicateVote / WrongPhase / TxNotFound) and stays prepared
+        if res.is_ok() {
+            if yes {
+                self.txs[t].yes_recorded.insert(shard);
+            } else {
+                self.txs[t].nonyes_delivered.insert(shard);
+            }
+        }
+        let txt = match &res {
+            Ok(p) => format!("Ok({p:?})"),
+            Err(VoteRecordError::TxNotFound(_)) => "Err(TxNotFound)".into(),
+            Err(VoteRecordError::WrongPhase { actual, .. }) => format!("Err(WrongPhase actual={actual:?})"),
+            Err(VoteRecordError::DuplicateVote { .. }) => "Err(DuplicateVote)".into(),
+        };
+        self.ctx.event(&format!("record_vote(T{t}, s{shard}, {}) -> {txt}", if yes { "Yes" } else { "NotYes" }));
+        self.ctx.fp(&format!("vote:{yes}:{}", txt.split('(').next().unwrap_or("")));
+        match res {
+            Ok(Some(TxPhase::Prepared)) => {
+                self.txs[t].commit_pending = true;
+                Some(TxPhase::Prepared)
+            },
+            Ok(Some(TxPhase::Aborting)) => {
+                let all_yes = self.txs[t].nonyes_delivered.is_empty();
+                if all_yes {
+                    self.ctx.probe("all_yes_but_coordinator_refused");
+                }
+                self.decide(t, Dec::Abort, "votes");
+                Some(TxPhase::Aborting)
+            },
+            Ok(p) => p,
+            Err(VoteRecordError::DuplicateVote { .. }) => {
+                self.ctx.probe("duplicate_vote_refused");
+                None
+            },
+            Err(VoteRecordError::TxNotFound(_)) => None,
+            Err(VoteRecordError::WrongPhase { .. }) => {
+                self.ctx.probe("vote_in_wrong_phase");
+                None
+            },
+        }
     }
 
     fn on_coord(&mut self, from: &str, msg: Message) {
@@ -537,46 +731,14 @@ impl<'a> World<'a> {
                 };
                 let yes = matches!(r.vote, TxVote::Yes { .. });
                 let res = self.coord.record_vote(r.tx_id, r.shard_id, r.vote.clone().into());
-                // a No/Conflict vote counts against a later COMMIT only if the
-                // coordinator accepted it; a participant that voted Yes and answers a
-                // duplicate prepare with Conflict after its lock expired has its late
-                // vote refused (DuplicateVote / WrongPhase / TxNotFound) and stays prepared
-                if !yes && res.is_ok() {
-                    self.txs[t].nonyes_delivered.insert(r.shard_id);
-                }
-                let txt = match &res {
-                    Ok(p) => format!("Ok({p:?})"),
-                    Err(VoteRecordError::TxNotFound(_)) => "Err(TxNotFound)".into(),
-                    Err(VoteRecordError::WrongPhase { actual, .. }) => format!("Err(WrongPhase actual={actual:?})"),
-                    Err(VoteRecordError::DuplicateVote { .. }) => "Err(DuplicateVote)".into(),
-                };
-                self.ctx.event(&format!("record_vote(T{t}, s{}, {}) -> {txt}", r.shard_id, if yes { "Yes" } else { "NotYes" }));
-                self.ctx.fp(&format!("vote:{yes}:{}", txt.split('(').next().unwrap_or("")));
-                match res {
-                    Ok(Some(TxPhase::Prepared)) => {
-                        self.txs[t].commit_pending = true;
+                match self.vote_result(t, r.shard_id, yes, res) {
+                    Some(TxPhase::Prepared) => {
                         if !self.case.defer_commit {
                             self.try_commit(t, "on-prepared");
                         }
                     },
-                    Ok(Some(TxPhase::Aborting)) => {
-                        let all_yes = self.txs[t].nonyes_delivered.is_empty();
-                        if all_yes {
-                            self.ctx.probe("all_yes_but_coordinator_refused");
-                        }
-                        self.decide(t, Dec::Abort, "votes");
-                        self.pump_aborts();
-                    },
-                    Ok(_) => {},
-                    Err(VoteRecordError::DuplicateVote { .. }) => self.ctx.probe("duplicate_vote"),
-                    Err(VoteRecordError::TxNotFound(_)) => {
-                        if self.txs[t].decided_by == "timeout" {
-                            self.ctx.probe("vote_after_timeout");
-                        } else if self.txs[t].decision == Some(Dec::Commit) {
-                            self.ctx.probe("vote_after_commit");
-                        }
-                    },
-                    Err(VoteRecordError::WrongPhase { .. }) => self.ctx.probe("vote_in_wrong_phase"),
+                    Some(TxPhase::Aborting) => self.pump_aborts(),
+                    _ => {},
                 }
             },
             Message::TxAck(a) => {
@@ -586,6 +748,277 @@ impl<'a> World<'a> {
                 let _ = from;
             },
             _ => {},
+        }
+    }
+
+    // ---- concurrent coordinator calls -------------------------------------
+
+    /// the pick-th in-flight vote addressed to the coordinator
+    fn take_vote(&mut self, pick: u16) -> Option<InFlight> {
+        let mut g = self.net.lock().unwrap();
+        let idx: Vec<usize> =
+            g.inflight.iter().enumerate().filter(|(_, m)| m.to == COORD && matches!(m.msg, Message::TxPrepareResponse(_))).map(|(i, _)| i).collect();
+        if idx.is_empty() {
+            return None;
+        }
+        let i = idx[usize::from(pick) % idx.len()];
+        Some(g.inflight.remove(i))
+    }
+
+    fn concurrent(&mut self, advance_ms: u32, threads: &[Vec<Call>], schedule: &[u8]) {
+        if advance_ms > 0 {
+            self.ctx.advance_ms(u64::from(advance_ms));
+            self.ctx.event(&format!("advance {advance_ms}ms"));
+            self.note_lock_expiry();
+        }
+        // resolve the calls against the world as it is now (kernel thread)
+        let mut progs: Vec<Vec<RCall>> = Vec::new();
+        for th in threads.iter().take(3) {
+            let mut prog = Vec::new();
+            for c in th.iter().take(4) {
+                match c {
+                    Call::Vote { pick } => {
+                        let Some(m) = self.take_vote(*pick) else { continue };
+                        let desc = self.describe(&m);
+                        if self.cut_off(&m) {
+                            self.ctx.event(&format!("lost to partition: {desc}"));
+                            self.ctx.fault_fired("partition_loss");
+                            continue;
+                        }
+                        if let Message::TxPrepareResponse(r) = m.msg {
+                            if let Some(&t) = self.by_raw.get(&r.tx_id) {
+                                prog.push(RCall::Vote { t, raw: r.tx_id, shard: r.shard_id, vote: r.vote, desc });
+                            }
+                        }
+                    },
+                    Call::Commit { tx } | Call::Abort { tx } => {
+                        let t = usize::from(*tx);
+                        if t < self.txs.len() && self.txs[t].started && !self.txs[t].begin_failed {
+                            let raw = self.txs[t].raw;
+                            prog.push(if matches!(c, Call::Commit { .. }) { RCall::Commit { t, raw } } else { RCall::Abort { t, raw } });
+                        }
+                    },
+                    Call::Sweep => prog.push(RCall::Sweep),
+                    Call::Pump => prog.push(RCall::Pump),
+                }
+            }
+            if !prog.is_empty() {
+                progs.push(prog);
+            }
+        }
+        if progs.is_empty() {
+            return;
+        }
+        for (i, prog) in progs.iter().enumerate() {
+            let txt: Vec<String> = prog
+                .iter()
+                .map(|c| match c {
+                    RCall::Vote { desc, .. } => format!("record_vote[{desc}]"),
+                    RCall::Commit { t, .. } => format!("commit(T{t})"),
+                    RCall::Abort { t, .. } => format!("abort(T{t})"),
+                    RCall::Sweep => "cleanup_timeouts".into(),
+                    RCall::Pump => "process_pending_aborts".into(),
+                })
+                .collect();
+            self.ctx.event(&format!("concurrent: thread {i}: {}", txt.join("; ")));
+        }
+        self.ctx.fp(&format!("conc:{}", progs.len()));
+        let n = progs.len();
+        let total_calls: usize = progs.iter().map(Vec::len).sum();
+        // outcomes in completion order: (thread, invocation tick, return tick, outcome)
+        let outcomes: Arc<Mutex<Vec<(usize, u64, u64, Outcome)>>> = Arc::new(Mutex::new(Vec::new()));
+        let tick = Arc::new(std::sync::atomic::AtomicU64::new(0));
+        let defer = self.case.defer_commit;
+        let bodies: Vec<sched::Body> = progs
+            .iter()
+            .cloned()
+            .enumerate()
+            .map(|(i, prog)| {
+                let coord = self.coord.clone();
+                let tr = self.coord_tr.clone();
+                let out = outcomes.clone();
+                let tick = tick.clone();
+                Box::new(move || {
+                    use std::sync::atomic::Ordering::SeqCst;
+                    for c in prog {
+                        let inv = tick.fetch_add(1, SeqCst);
+                        match c {
+                            RCall::Vote { t, raw, shard, vote, .. } => {
+                                let yes = matches!(vote, TxVote::Yes { .. });
+                                let res = coord.record_vote(raw, shard, vote.into());
+                                let prepared = matches!(res, Ok(Some(TxPhase::Prepared)));
+                                out.lock().unwrap().push((i, inv, tick.fetch_add(1, SeqCst), Outcome::Vote { t, shard, yes, res }));
+                                if prepared && !defer {
+                                    sched::yield_point("c03.op");
+                                    let inv = tick.fetch_add(1, SeqCst);
+                                    let res = coord.commit(raw).map_err(|e| e.to_string());
+                                    out.lock().unwrap().push((i, inv, tick.fetch_add(1, SeqCst), Outcome::Commit { t, res, why: "on-prepared" }));
+                                }
+                            },
+                            RCall::Commit { t, raw } => {
+                                let res = coord.commit(raw).map_err(|e| e.to_string());
+                                out.lock().unwrap().push((i, inv, tick.fetch_add(1, SeqCst), Outcome::Commit { t, res, why: "step" }));
+                            },
+                            RCall::Abort { t, raw } => {
+                                let res = coord.abort(raw, "client abort").map_err(|e| e.to_string());
+                                out.lock().unwrap().push((i, inv, tick.fetch_add(1, SeqCst), Outcome::Abort { t, res }));
+                            },
+                            RCall::Sweep => {
+                                let listed = coord.cleanup_timeouts();
+                                out.lock().unwrap().push((i, inv, tick.fetch_add(1, SeqCst), Outcome::Sweep { listed }));
+                            },
+                            RCall::Pump => {
+                                now_or_never(coord.process_pending_aborts(&*tr));
+                                out.lock().unwrap().push((i, inv, tick.fetch_add(1, SeqCst), Outcome::Pump));
+                            },
+                        }
+                        sched::yield_point("c03.op");
+                    }
+                }) as sched::Body
+            })
+            .collect();
+        // past the case's schedule every pick is STAY: a thread runs until it ends or
+        // has to wait for a lock (the scheduler never re-picks a waiting thread
+        // before another one made progress)
+        let mark = self.inflight_len();
+        let res = sched::run_threads(self.ctx, schedule, 2000 * (total_calls + 2), bodies);
+        if res.exhausted {
+            self.harness_error = Some(format!("concurrent step: schedule exhausted after {} steps", res.steps));
+            return;
+        }
+        self.ctx.event(&format!("concurrent: threads done: steps={} switches={}", res.steps, res.switches));
+        if n > 1 {
+            self.ctx.probe("concurrent_step");
+        }
+        for (site, k) in &res.preempted_at {
+            if *k > 0 {
+                match *site {
+                    "tensor_chain.lock" => self.ctx.probe("preempted_at_lock_acquisition"),
+                    "tensor_chain.lock.wait" => self.ctx.probe("preempted_while_waiting_for_held_lock"),
+                    _ => {},
+                }
+            }
+        }
+        let outs: Vec<(usize, u64, u64, Outcome)> = std::mem::take(&mut *outcomes.lock().unwrap());
+        // probes: a commit call beside / overlapping a call that can abort the same transaction
+        for (i, inv_a, ret_a, a) in &outs {
+            let Outcome::Commit { t, .. } = a else { continue };
+            for (j, inv_b, ret_b, b) in &outs {
+                let rival = match b {
+                    Outcome::Abort { t: tb, .. } => tb == t,
+                    Outcome::Sweep { .. } => true,
+                    _ => false,
+                };
+                if rival && i != j {
+                    self.ctx.probe("commit_beside_abort_or_sweep");
+                    if inv_a < ret_b && inv_b < ret_a {
+                        self.ctx.probe("commit_overlapped_abort_or_sweep");
+                    }
+                }
+            }
+        }
+        for (i, _, _, o) in outs {
+            match o {
+                Outcome::Vote { t, shard, yes, res } => {
+                    self.ctx.event(&format!("[thread {i}]"));
+                    let _ = self.vote_result(t, shard, yes, res);
+                },
+                Outcome::Commit { t, res, why } => {
+                    self.ctx.event(&format!("[thread {i}]"));
+                    self.commit_result(t, res, why, "commit");
+                },
+                Outcome::Abort { t, res } => {
+                    self.ctx.event(&format!("[thread {i}]"));
+                    self.abort_result(t, res, "abort-call");
+                },
+                Outcome::Sweep { listed } => {
+                    self.ctx.event(&format!("[thread {i}]"));
+                    self.swept(&listed);
+                },
+                Outcome::Pump => self.ctx.event(&format!("[thread {i}] process_pending_aborts")),
+            }
+        }
+        if !res.panics.is_empty() {
+            if res.panics.iter().any(|p| p.contains("HARNESS")) {
+                self.harness_error = Some(format!("concurrent step: {:?}", res.panics));
+            } else {
+                self.violate("panic-in-2pc-code", format!("a coordinator call panicked in a concurrent step: {:?}", res.panics));
+            }
+            return;
+        }
+        // what the threads' process_pending_aborts sent; then the tick's own pump
+        // (the commit/abort broadcasts above went in after `mark`, they are not TxAbort
+        // batches of the coordinator and keep their place: only re-note, do not reorder)
+        self.note_abort_sends(mark);
+        self.pump_aborts();
+    }
+
+    fn note_abort_sends(&mut self, mark: usize) {
+        let sent: Vec<(u64, String)> = {
+            let g = self.net.lock().unwrap();
+            g.inflight.iter().skip(mark).filter_map(|m| if let Message::TxAbort(a) = &m.msg { Some((a.tx_id, m.to.clone())) } else { None }).collect()
+        };
+        for (raw, to) in sent {
+            if let (Some(&t), Some(s)) = (self.by_raw.get(&raw), Self::shard_of(&to)) {
+                self.txs[t].abort_sent.insert(s);
+            }
+        }
+    }
+
+    // ---- coordinator restart (observation only) ----------------------------
+
+    fn restart(&mut self) {
+        self.tainted.get_or_insert(RESTART_LABEL);
+        self.ctx.fault_fired("obs_coordinator_restart");
+        for t in 0..self.txs.len() {
+            if !self.txs[t].started || self.txs[t].begin_failed || self.txs[t].decision.is_some() {
+                continue;
+            }
+            let n = self.txs[t].ops.len();
+            let y = self.txs[t].yes_recorded.len();
+            if y > 0 && y < n && self.txs[t].nonyes_delivered.is_empty() {
+                self.ctx.probe("restart_with_partial_yes_votes");
+            }
+            if self.txs[t].commit_pending {
+                self.ctx.probe("restart_between_prepared_and_commit");
+            }
+        }
+        if self.coord_store.is_none() {
+            self.coord_store = Some(TensorStore::new());
+        }
+        let Some(store) = self.coord_store.clone() else { return };
+        if let Err(e) = self.coord.save_to_store(COORD, &store) {
+            self.harness_error = Some(format!("restart: save_to_store failed: {e}"));
+            return;
+        }
+        match DistributedTxCoordinator::load_from_store(COORD, &store, ConsensusManager::default_config(), DistributedTxConfig::default()) {
+            Ok(c) => self.coord = Arc::new(c),
+            Err(e) => {
+                self.harness_error = Some(format!("restart: load_from_store failed: {e}"));
+                return;
+            },
+        }
+        let st = self.coord.recover();
+        self.ctx.event(&format!(
+            "OBS coordinator restart: recover -> pending_prepare={} pending_commit={} pending_abort={} timed_out={} completed={}",
+            st.pending_prepare, st.pending_commit, st.pending_abort, st.timed_out, st.completed
+        ));
+        let mut dec: Vec<(usize, TxPhase)> = self.coord.get_pending_decisions().into_iter().filter_map(|(raw, ph)| self.by_raw.get(&raw).map(|t| (*t, ph))).collect();
+        dec.sort_by_key(|d| d.0);
+        for (t, ph) in dec {
+            let raw = self.txs[t].raw;
+            self.ctx.probe("restart_recovered_pending_decision");
+            match ph {
+                TxPhase::Committing => {
+                    let res = self.coord.complete_commit(raw).map_err(|e| e.to_string());
+                    self.commit_result(t, res, "recovery", "recovery");
+                },
+                TxPhase::Aborting => {
+                    let res = self.coord.complete_abort(raw).map_err(|e| e.to_string());
+                    self.abort_result(t, res, "recovery");
+                },
+                _ => {},
+            }
         }
     }
 
@@ -893,6 +1326,8 @@ impl<'a> World<'a> {
                 self.ctx.fault_fired("obs_wall_clock_backwards");
                 self.ctx.event(&format!("OBS wall clock stepped back {ms}ms"));
             },
+            Step::Concurrent { advance_ms, threads, schedule } => self.concurrent(*advance_ms, threads, schedule),
+            Step::Restart => self.restart(),
         }
         self.note_races();
     }
@@ -977,8 +1412,28 @@ impl<'a> World<'a> {
                     if self.shards[*s].part.get_awaiting_decision().contains(&self.txs[t].raw) {
                         if self.txs[t].abort_delivered.contains(s) {
                             self.ctx.probe("aborted_tx_left_prepared_after_late_prepare");
-                        } else {
+                        } else if self.txs[t].abort_sent.contains(s) {
+                            // sent and lost on the way: loss is in the quantifier and the
+                            // text demands no retransmission
                             self.ctx.probe("abort_lost_participant_left_prepared");
+                        } else if !self.txs[t].yes_before_decision.contains(s) {
+                            // it prepared only after the decision (late prepare): an abort
+                            // sent at decision time could have overtaken the prepare as well
+                            self.ctx.probe("aborted_tx_prepared_late_never_told");
+                        } else {
+                            // item 6 — "every participant reaches the coordinator's one
+                            // decision", in its weakest form: a participant that holds the
+                            // transaction prepared can reach the ABORT decision only if the
+                            // decision is at least addressed to it. Whether the message then
+                            // arrives is the network's business (loss is in the quantifier);
+                            // here none was ever sent, so no delivery order lets it reach it.
+                            self.violate(
+                                "abort-decision-never-sent-to-prepared-participant",
+                                format!(
+                                    "T{t}: the coordinator decided Abort (by {}); shard-{s} had voted Yes before that and still holds the transaction prepared (with its key locks), and no TxAbort(T{t}) was ever addressed to it (addressed to shards {:?})",
+                                    self.txs[t].decided_by, self.txs[t].abort_sent
+                                ),
+                            );
                         }
                     }
                 }
@@ -1050,6 +1505,30 @@ fn gen_tx(rng: &mut Rng, shards: u8, nkeys: u8, overlap_emb: bool) -> TxSpec {
     TxSpec { parts }
 }
 
+/// A `Concurrent` step: 1-3 threads with 1-3 coordinator calls each. In a
+/// fault-free run the clock is not advanced (no timeout fires) but the calls
+/// still race.
+fn gen_concurrent(rng: &mut Rng, ntx: usize, stickiness: u64, fault_free: bool) -> Step {
+    let nthreads = *rng.pick(&[1usize, 2, 2, 2, 3, 3]);
+    let advance_ms = if fault_free { 0 } else { *rng.pick(&[0u32, 0, 0, 1000, 2600, 5001, 5001]) };
+    let threads: Vec<Vec<Call>> = (0..nthreads)
+        .map(|_| {
+            let ncalls = rng.range(1, 3) as usize;
+            (0..ncalls)
+                .map(|_| match rng.below(20) {
+                    0..=7 => Call::Vote { pick: rng.below(6) as u16 },
+                    8..=10 => Call::Commit { tx: rng.below(ntx as u64) as u8 },
+                    11..=13 => Call::Abort { tx: rng.below(ntx as u64) as u8 },
+                    14..=17 => Call::Sweep,
+                    _ => Call::Pump,
+                })
+                .collect()
+        })
+        .collect();
+    let schedule = if nthreads == 1 { Vec::new() } else { sched::gen_schedule(rng, 40, stickiness) };
+    Step::Concurrent { advance_ms, threads, schedule }
+}
+
 impl Scenario for C03 {
     type Case = Case;
     fn id(&self) -> &'static str {
@@ -1090,11 +1569,16 @@ impl Scenario for C03 {
         let w_sweep = if on(rng, 1, 3) { rng.range(1, 5) } else { 0 };
         let w_trycommit = if on(rng, 1, 3) { rng.range(1, 5) } else { 0 };
         let w_part = if on(rng, 1, 4) { rng.range(1, 4) } else { 0 };
+        // concurrent coordinator calls: in about a quarter of the runs (also in
+        // otherwise fault-free ones: an interleaving is not a fault)
+        let w_conc = if rng.chance(1, 4) { rng.range(2, 7) } else { 0 };
+        let conc_stick = *rng.pick(&[0u64, 30, 60, 85]);
         // observation configurations: about 1 run in 16
         let observe = !fault_free && rng.chance(1, 16);
         let w_obs = if observe { rng.range(1, 4) } else { 0 };
         // one observation kind per run, so the label of an observation is exact
-        let obs_stale = rng.chance(3, 4);
+        // (0 = participant presumed-abort sweep, 1 = wall clock backwards, 2 = coordinator restart)
+        let obs_kind = *rng.pick(&[0u8, 0, 0, 1, 2, 2, 2, 2]);
         let defer_commit = on(rng, 1, 5);
         let tail_partitioned = w_part > 0 && rng.chance(1, 2);
         let fifo_bias = rng.chance(1, 2);
@@ -1103,7 +1587,7 @@ impl Scenario for C03 {
         // start positions: the first at 0, the others anywhere in the first 2/3
         let mut starts: Vec<(usize, u8)> = (0..ntx).map(|t| (if t == 0 { 0 } else { rng.usize_below(n_steps * 2 / 3 + 1) }, t as u8)).collect();
         starts.sort_unstable();
-        let total = w_deliver + w_drop + w_dup + w_delay + w_timeout + w_expiry + w_adv + w_sweep + w_trycommit + w_part + w_obs;
+        let total = w_deliver + w_drop + w_dup + w_delay + w_timeout + w_expiry + w_adv + w_sweep + w_trycommit + w_part + w_conc + w_obs;
         let mut steps = Vec::new();
         for i in 0..n_steps {
             for (at, t) in &starts {
@@ -1145,10 +1629,14 @@ impl Scenario for C03 {
                 } else {
                     Step::Heal
                 }
-            } else if obs_stale {
+            } else if take(w_conc) {
+                gen_concurrent(rng, ntx, conc_stick, fault_free)
+            } else if obs_kind == 0 {
                 Step::StaleSweep { shard: rng.below(u64::from(shards)) as u8, secs: *rng.pick(&[0u16, 1, 30, 60]) }
-            } else {
+            } else if obs_kind == 1 {
                 Step::WallBack { ms: *rng.pick(&[10u32, 6000, 40_000]) }
+            } else {
+                Step::Restart
             };
             steps.push(st);
         }
@@ -1156,6 +1644,9 @@ impl Scenario for C03 {
     }
 
     fn run(&self, case: &Case, ctx: &Arc<RunCtx>) -> RunOut {
+        // threads of a Concurrent step switch only at this scenario's own sites and at
+        // tensor_chain's lock acquisitions (see sched::Baton::allow)
+        sched::set_allowed_sites(&["c03.", "tensor_chain."]);
         let mut out = RunOut::default();
         let mut w = World::new(ctx, case);
         ctx.event(&format!(
@@ -1300,6 +1791,60 @@ impl Scenario for C03 {
                 c.steps[i] = s;
                 v.push(c);
             }
+            if let Step::Concurrent { advance_ms, threads, schedule } = st {
+                let mut push = |advance_ms: u32, threads: Vec<Vec<Call>>, schedule: Vec<u8>| {
+                    let mut c = case.clone();
+                    c.steps[i] = Step::Concurrent { advance_ms, threads, schedule };
+                    v.push(c);
+                };
+                // fewer threads, fewer calls, no clock advance, a shorter / stickier schedule
+                if threads.len() > 1 {
+                    for j in 0..threads.len() {
+                        let mut th = threads.clone();
+                        th.remove(j);
+                        push(*advance_ms, th, schedule.clone());
+                    }
+                }
+                for (j, th) in threads.iter().enumerate() {
+                    if th.len() > 1 {
+                        for k in 0..th.len() {
+                            let mut ths = threads.clone();
+                            ths[j].remove(k);
+                            push(*advance_ms, ths, schedule.clone());
+                        }
+                    }
+                    for (k, call) in th.iter().enumerate() {
+                        if let Call::Vote { pick } = call {
+                            if *pick != 0 {
+                                let mut ths = threads.clone();
+                                ths[j][k] = Call::Vote { pick: 0 };
+                                push(*advance_ms, ths, schedule.clone());
+                            }
+                        }
+                    }
+                }
+                if *advance_ms != 0 {
+                    push(0, threads.clone(), schedule.clone());
+                }
+                if !schedule.is_empty() {
+                    push(*advance_ms, threads.clone(), Vec::new());
+                    push(*advance_ms, threads.clone(), schedule[..schedule.len() / 2].to_vec());
+                    let mut trimmed = schedule.clone();
+                    while trimmed.last() == Some(&sched::STAY) {
+                        trimmed.pop();
+                    }
+                    if trimmed.len() < schedule.len() {
+                        push(*advance_ms, threads.clone(), trimmed);
+                    }
+                    for (k, p) in schedule.iter().enumerate() {
+                        if *p != sched::STAY {
+                            let mut sc = schedule.clone();
+                            sc[k] = sched::STAY;
+                            push(*advance_ms, threads.clone(), sc);
+                        }
+                    }
+                }
+            }
         }
         v
     }
@@ -1315,25 +1860,39 @@ impl Scenario for C03 {
             "duplicate_prepare",
             "lock_conflict_vote",
             "lock_expired_while_prepared",
-            "abort_to_never_prepared",
+            // facts about the situation a timeout fell into, taken on the harness side
+            // (whether the coordinator then addresses its abort to such a participant is
+            // the code's behaviour: `abort_to_never_prepared` is counted, not required)
+            "timeout_before_participant_prepared",
+            "timeout_with_unrecorded_yes_vote",
             "decision_lost_to_partition",
             "commit_and_abort_in_flight_together",
+            // concurrent coordinator calls
+            "concurrent_step",
+            "preempted_at_lock_acquisition",
+            "commit_overlapped_abort_or_sweep",
+            "abort_call_accepted",
+            "abort_call_between_prepared_and_commit",
+            // observation configuration: coordinator restart
+            "restart_with_partial_yes_votes",
+            "restart_between_prepared_and_commit",
+            "restart_recovered_pending_decision",
         ]
     }
     fn rule(&self) -> String {
-        "A case is 2-3 shards with a generated initial content, 1-3 transactions (2-3 participants each, 1-2 Put/Delete/CompareAndSwap operations per participant over 1-4 key names, so transactions overlap or are disjoint) and an explicit list of <=120 steps: start a transaction, deliver/drop/duplicate/delay the pick-th in-flight message, advance the clock, coordinator timeout sweep, advance past the participants' 30 s lock timeout, an extra commit() call by the driver, partition/heal of a shard; then a fault-free tail delivers everything, makes the deferred commit calls, runs one more timeout sweep and delivers its aborts. Fault kinds are enabled per run in a random subset (every 8th run has deliveries only). Non-trivial: at least one transaction was decided and at least one TxCommit or TxAbort was handled by a participant. Distinct: hash of the sequence of (event kind, outcome class) — starts, votes produced, record_vote results, decisions and who made them, commit/abort handling outcomes, drops, duplicates.".into()
+        "A case is 2-3 shards with a generated initial content, 1-3 transactions (2-3 participants each, 1-2 Put/Delete/CompareAndSwap operations per participant over 1-4 key names, so transactions overlap or are disjoint) and an explicit list of <=120 steps: start a transaction, deliver/drop/duplicate/delay the pick-th in-flight message, advance the clock, coordinator timeout sweep, advance past the participants' 30 s lock timeout, an extra commit() call by the driver, partition/heal of a shard, and (in a quarter of the runs) Concurrent steps in which 1-3 scheduled threads issue 1-3 coordinator calls each (record_vote of an in-flight vote followed by commit on Prepared, commit, abort, cleanup_timeouts, process_pending_aborts; thread switches at the coordinator's lock acquisitions under a generated schedule, optionally after advancing the clock past the prepare timeout); then a fault-free tail delivers everything, makes the deferred commit calls, runs one more timeout sweep and delivers its aborts. Fault kinds are enabled per run in a random subset (every 8th run has deliveries only). Non-trivial: at least one transaction was decided and at least one TxCommit or TxAbort was handled by a participant. Distinct: hash of the sequence of (event kind, outcome class) — starts, votes produced, record_vote results, decisions and who made them, commit/abort handling outcomes, drops, duplicates.".into()
     }
     fn components(&self) -> Value {
         json!({
             "real": [
-                "tensor_chain::distributed_tx::DistributedTxCoordinator (begin, record_vote, commit, cleanup_timeouts, process_pending_aborts, handle_abort_ack; no WAL)",
+                "tensor_chain::distributed_tx::DistributedTxCoordinator (begin, record_vote, commit, abort, cleanup_timeouts, process_pending_aborts, handle_abort_ack; no WAL; called from 1-3 baton threads in Concurrent steps; save_to_store/load_from_store/recover/get_pending_decisions/complete_commit/complete_abort in observation runs)",
                 "tensor_chain::distributed_tx::TxParticipant (prepare, commit, abort; cleanup_stale in observation runs) with its LockManager",
                 "tensor_chain::network::TxHandler (Message in -> Message out), TxPrepareMsg/TxPrepareResponseMsg/TxCommitMsg/TxAbortMsg/TxAckMsg and the TxVote<->PrepareVote conversions",
                 "tensor_store::TensorStore (one per shard, in memory)",
                 "tensor_chain::tx_id::generate_tx_id"
             ],
-            "simulated": ["network: net::SimTransport, delivery order/loss/duplication/partition decided by the step list", "CLOCK_REALTIME / CLOCK_MONOTONIC (interposed)", "getrandom (interposed)"],
-            "stub": ["the transaction driver (begin -> TxPrepare; vote -> record_vote; Prepared -> commit -> TxCommit; Aborting/timeout -> process_pending_aborts): the repository has no component that drives a transaction over the network"]
+            "simulated": ["network: net::SimTransport, delivery order/loss/duplication/partition decided by the step list", "thread interleaving of concurrent coordinator calls: sched::run_threads over tensor_chain's sync_compat lock acquisitions, schedule in the case", "CLOCK_REALTIME / CLOCK_MONOTONIC (interposed)", "getrandom (interposed)"],
+            "stub": ["the transaction driver (begin -> TxPrepare; vote -> record_vote; Prepared -> commit -> TxCommit; Aborting/timeout -> process_pending_aborts; client cancel: abort -> Ok -> TxAbort to every participant): the repository has no component that drives a transaction over the network"]
         })
     }
     fn assumptions(&self) -> Vec<String> {
@@ -1341,9 +1900,11 @@ impl Scenario for C03 {
             "the driver calls commit() as soon as record_vote returns Prepared, or (defer_commit) at a later step; it sends TxCommit exactly once per participant and never retries".into(),
             "operations are Put/Delete/CompareAndSwap on plain keys; the sequential meaning of an operation list (CAS compares against empty bytes for an absent key) is taken from TxParticipant::apply_operations and is not judged here".into(),
             "two COMMIT-decided transactions applied on a shard in either order are both accepted (isolation/serialisability after lock expiry is not part of C03); the reference map follows the order in which the shard applied them".into(),
-            "a participant left holding a prepared transaction whose decision was ABORT (abort lost, or prepare delivered after the abort) is counted by a probe, not judged: the property states no termination requirement".into(),
-            "participant crash/restart and coordinator restart are not part of this scenario (C13)".into(),
-            "cleanup_stale and backwards wall-clock steps run only in labelled observation runs; once one took effect the run reports observations, never a violation".into(),
+            "a participant left holding a prepared transaction whose decision was ABORT because the abort was lost, or the prepare was delivered after the abort, is counted by a probe, not judged: the property demands no retransmission".into(),
+            "participant crash/restart is not part of this scenario; a coordinator restart is not in C03's quantifier (it lists loss, duplication, reordering, coordinator timeouts, late and duplicate votes, concurrent transactions) and is C13's subject: the graceful restart through save_to_store/load_from_store/recover runs only as a labelled observation".into(),
+            "cleanup_stale, backwards wall-clock steps and coordinator restarts run only in labelled observation runs; once one took effect the run reports observations (the class of every oracle item that would have fired), never a violation".into(),
+            "in a Concurrent step the participants do not run; the votes handed to record_vote are messages already in flight, the commit/abort broadcasts of the stub are sent after the threads have finished, in the order in which the calls returned".into(),
+            "'every participant reaches the coordinator's one decision' is judged in its weakest form: a participant still holding an ABORT-decided transaction prepared after the fault-free tail is a violation only if it had voted Yes before the decision and no TxAbort for the transaction was ever addressed to it; a TxAbort that was sent and lost (or overtaken by a late prepare) is counted by a probe".into(),
         ]
     }
 }
